@@ -38,21 +38,21 @@ Definition cc_path : path := pchild root_path "commandCode".
 Definition is_root_event (e : event) : bool :=
   path_eqb (epath e) root_path && match evalue e with None => true | Some _ => false end.
 
-Record pstate := mkP { p_nrd : Z; p_cc : option Z; p_out : list oevent (* reversed *) }.
+Record pstate := mkP { ps_nrd : Z; ps_cc : option Z; ps_out : list oevent (* reversed *) }.
 
 (** walks the trace; [inr] = stopped silently at a message root with the input depleted *)
 Fixpoint pump_go (is_stream : bool) (len : Z) (tr : list action) (ps : pstate) : pstate * bool :=
   match tr with
   | [] => (ps, false)
-  | Rd _ :: r => pump_go is_stream len r (mkP (p_nrd ps + 1) (p_cc ps) (p_out ps))
+  | Rd _ :: r => pump_go is_stream len r (mkP (ps_nrd ps + 1) (ps_cc ps) (ps_out ps))
   | Ev e :: r =>
-      let depleted := len <=? p_nrd ps in
-      let cc' := if path_eqb (epath e) cc_path then evalue e else p_cc ps in
-      if is_stream && depleted && is_root_event e then (mkP (p_nrd ps) cc' (p_out ps), true)
+      let depleted := len <=? ps_nrd ps in
+      let cc' := if path_eqb (epath e) cc_path then evalue e else ps_cc ps in
+      if is_stream && depleted && is_root_event e then (mkP (ps_nrd ps) cc' (ps_out ps), true)
       else pump_go is_stream len r
-             (mkP (p_nrd ps) cc' ((Ev e, Z.min len (p_nrd ps + 1)) :: p_out ps))
+             (mkP (ps_nrd ps) cc' ((Ev e, Z.min len (ps_nrd ps + 1)) :: ps_out ps))
   | Wn w :: r =>
-      pump_go is_stream len r (mkP (p_nrd ps) (p_cc ps) ((Wn w, Z.min len (p_nrd ps + 1)) :: p_out ps))
+      pump_go is_stream len r (mkP (ps_nrd ps) (ps_cc ps) ((Wn w, Z.min len (ps_nrd ps + 1)) :: ps_out ps))
   end.
 
 Fixpoint skipZ (l : list Z) (n : Z) : list Z :=
@@ -63,22 +63,22 @@ Definition pump {A} (abort is_stream : bool) (input : list Z) (run : list action
   let '(tr, _, o) := run in
   let len := Z.of_nat (List.length input) in
   let '(ps, stopped) := pump_go is_stream len tr (mkP 0 None []) in
-  if stopped then (rev (p_out ps), OAccepted) else
-  let pulled := Z.min len (p_nrd ps + 1) in
-  let rest := skipZ input (p_nrd ps) in
+  if stopped then (rev (ps_out ps), OAccepted) else
+  let pulled := Z.min len (ps_nrd ps + 1) in
+  let rest := skipZ input (ps_nrd ps) in
   match o with
   | Ok _ =>
       match rest with
-      | [] => (rev (p_out ps), OAccepted)
-      | _ => if abort then (rev (p_out ps), OSuperfluous rest (p_cc ps))
-             else (rev ((Wn (ESuperfluous rest (p_cc ps)), pulled) :: p_out ps), OAccepted)
+      | [] => (rev (ps_out ps), OAccepted)
+      | _ => if abort then (rev (ps_out ps), OSuperfluous rest (ps_cc ps))
+             else (rev ((Wn (ESuperfluous rest (ps_cc ps)), pulled) :: ps_out ps), OAccepted)
       end
-  | Fail e => (rev (p_out ps), ORaised e rest)
+  | Fail e => (rev (ps_out ps), ORaised e rest)
   | More =>
-      if abort then (rev (p_out ps), ODepleted (p_cc ps))
-      else (rev ((Wn (EDepleted (p_cc ps)), pulled) :: p_out ps), OAccepted)
-  | Internal k => (rev (p_out ps), OCrash k)
-  | Fuel => (rev (p_out ps), OFuel)
+      if abort then (rev (ps_out ps), ODepleted (ps_cc ps))
+      else (rev ((Wn (EDepleted (ps_cc ps)), pulled) :: ps_out ps), OAccepted)
+  | Internal k => (rev (ps_out ps), OCrash k)
+  | Fuel => (rev (ps_out ps), OFuel)
   end.
 
 Definition init_st (input : list Z) : st := mkSt input [] [].
